@@ -862,6 +862,10 @@ func handleMessage(peer *Peer, m protocol.Message) error {
 				peer.requested = peer.requested[1:]
 			}
 		}
+		if len(peer.requested) >= reqQ {
+			// couldn't make room
+			return nil
+		}
 		peer.requested = append(peer.requested,
 			Requested{m.Index, m.Begin, m.Length})
 		err := scheduleUpload(peer, false)
